@@ -132,6 +132,27 @@ CLAIMED = {
    note=TB % 'c15' + "Modelled not verified: discretize.utils.volume_average (checked through the "
         "adjoint pairing), log10/10** rounding.",
    technique='Lean 4 telescoping/overlap lemmas over an ordered field; exact-rational correspondence'),
+ 'C14': dict(
+   text="Proof (Lean 4, over the reals, Mathlib analysis): the six mappings are defined once, "
+        "generically in the number type and its elementary functions (MapsM.forward / backward / "
+        "chain); instantiated at R: backward(forward s) = s for every s > 0, forward(backward x) "
+        "= x, backward x > 0, HasDerivAt (backward m) (chain m x) x for all six maps (the factor of "
+        "derivative_chain IS the derivative), hence the solver coefficient eta computed from any "
+        "parametrisation equals the one from the conductivity; decision model of the validation: "
+        "accepted iff every value is positive and finite on the conductivity scale, which error "
+        "otherwise, an uninitialised parameter cannot be set. Tie to code: the same generic "
+        "definitions instantiated at Float are executed by the driver against every Map* class "
+        "over twelve decades (<= 8 ulp), factor vs finite differences of the class' own backward; "
+        "VolumeModel eta/zeta of all six parametrisations vs Lean etaCoef/zetaCoef evaluated "
+        "exactly (4 cases x mu_r x epsilon_r x frequency/Laplace); Model constructor/setters on "
+        "float-class representatives vs the decision model; fields, data, misfit identical and "
+        "gradient_m = gradient_sigma x Lean chain factor on real solves; estimate_gridding_opts, "
+        "interpolate_to_grid and extract_1d give mapping-independent physical models.",
+   design='§4 C14',
+   note=TB % 'c14' + "Modelled not verified: floating-point log/exp/pow (theorems are over R; "
+        "float round trips hold to the stated ulp bounds; the Lean runtime's libm is the executable "
+        "reference).",
+   technique='Lean 4 real-analysis theorems (inverse pairs, HasDerivAt) on generic map definitions also executed at Float; float-class decision table; float correspondence'),
  'C02': dict(
    text="Proof (Lean 4, over an arbitrary field K, all grid sizes/widths/coefficients/fields): the "
         "model Emg.amat of core.amat_x equals on every interior edge the assembled operator "
